@@ -182,6 +182,7 @@ def setup(concepts, spec):
 
 
 def cases(tier, seed, spec):
+    yield from gen.biglat(tier)
     yield from gen.ctx_stream(tier, seed)
 
 
@@ -191,6 +192,9 @@ def run_case(concepts, case, spec):
     if ctx is None:
         return
     sh = attach.shadow_of(ctx)
+    if case['fam'].startswith('BIGLAT'):
+        sh.cap_override = 70000
+        COL.count('biglat_cases')
     cap = CAP[spec['tier']]
     sl = sh.lattice(cap)
     lat = common.get_lattice(ctx)
